@@ -514,7 +514,8 @@ pub fn oracle(tier: &str, seed: u64) -> (u64, Vec<Finding>) {
         }
         // comparisons
         let n = 1 + r.below(8) as usize;
-        let x: Vec<f64> = (0..n).map(|_| { let v = r.uniform(0.1, 4.0); if r.coin(0.5) { v } else { -v } }).collect();
+        // magnitudes at every scale (the comparison is relative: tiny and huge nonzero values of opposite sign must not be equated either)
+        let x: Vec<f64> = (0..n).map(|_| { let sc = *r.pick(&[1e-300, 1e-200, 1e-100, 1e-30, 1e-17, 1e-16, 1e-10, 1e-3, 1.0, 1.0, 1.0, 1.0, 1e3, 1e10, 1e100, 1e300]); let v = r.uniform(0.1, 4.0) * sc; if r.coin(0.5) { v } else { -v } }).collect();
         let tol = *r.pick(&[1e-10, 1e-6, 1e-3, 0.5]);
         let (vx, neg) = (Vector::new(x.clone()), Vector::new(x.iter().map(|v| -v).collect::<Vec<_>>()));
         let near = Vector::new(x.iter().map(|v| v * (1.0 + 0.25 * tol)).collect::<Vec<_>>());
@@ -531,7 +532,11 @@ pub fn oracle(tier: &str, seed: u64) -> (u64, Vec<Finding>) {
         t("close_to(x, x(1+tol/4), tol)", true, catch(|| vx.close_to(&near, tol)), &mut out, "close_to:wrong");
         t("close_to(x, x with one entry scaled by 1+4tol, tol)", false, catch(|| vx.close_to(&far, tol)), &mut out, "close_to:wrong");
         t("close_to(x, x ++ [1], tol)", false, catch(|| vx.close_to(&Vector::new(longer.clone()), tol)), &mut out, "close_to:wrong");
-        t("x == -x", false, catch(|| vx == neg), &mut out, "eq:opposite-signs-equated");
+        // `==` is DEFINED with the absolute tolerance f64::EPSILON: two values both below it in magnitude are equal by that definition whatever
+        // their signs, so the sign clause is tested where the definition itself separates x from -x (some |x_i| > EPSILON/2)
+        if x.iter().any(|v| v.abs() > f64::EPSILON) {
+            t("x == -x", false, catch(|| vx == neg), &mut out, "eq:opposite-signs-equated");
+        }
         t("x == x", true, catch(|| vx == vx.clone()), &mut out, "eq:wrong");
         t("x == x ++ [1]", false, catch(|| vx == Vector::new(longer.clone())), &mut out, "eq:wrong");
         let ds = divisors(n);
